@@ -16,7 +16,16 @@
       - the database is fault-free (write faults are property C10).
     What IS transcribed branch for branch is WHEN each operation touches
     memory relative to its database writes: eagerly, or in the
-    [tx.OnCommit] callback, which runs only after a successful commit. *)
+    [tx.OnCommit] callback, which runs only after a successful commit.
+
+    One fact about the source is a parameter [rb] of the model ("read-back
+    cached"): whether [nextAddresses] puts the address it reads back after
+    writing into the address cache at once ([loadAndCacheAddress],
+    scoped_manager.go:1160 - the pinned code, [rb = true]) or leaves the cache
+    to its OnCommit closure ([rb = false], the repair proposed for finding S4).
+    The theorems hold for both values; the value the source has NOW is
+    regenerated into Generated/AddrCache.v by lib/extract_c08.py and used by
+    the correspondence check. *)
 From stdpp Require Import gmap list numbers.
 From Coq Require Import ZArith NArith.
 
@@ -335,7 +344,7 @@ Definition set_synced (s : stamp) (t : txst) : txst * ans :=
                 (set_d_hashes hs d) in
     ({| t_disk := d'; t_mem := set_m_synced s (t_mem t); t_cbs := t_cbs t |}, AOk).
 
-Definition step (o : op) (t : txst) : txst * ans :=
+Definition step (rb : bool) (o : op) (t : txst) : txst * ans :=
   let d := t_disk t in
   let m := t_mem t in
   match o with
@@ -368,9 +377,9 @@ Definition step (o : op) (t : txst) : txst * ans :=
             ({| t_disk := d'; t_mem := m'; t_cbs := t_cbs t |}, AOk)
         end
   | ONext a b n =>
-      (* nextAddresses: rows written; every written address read back INTO THE
-         CACHE (loadAndCacheAddress, line 1160); indices and last address only
-         in the OnCommit closure *)
+      (* nextAddresses: rows written; every written address read back - INTO THE
+         CACHE when [rb] (loadAndCacheAddress, line 1160); indices, last address
+         and (again) the cache entries in the OnCommit closure *)
       let '(m1, o) := load_acct d m a in
       match o with
       | None => ({| t_disk := d; t_mem := m1; t_cbs := t_cbs t |}, AErr EAccountNotFound)
@@ -385,7 +394,7 @@ Definition step (o : op) (t : txst) : txst * ans :=
             | inr d' => ({| t_disk := d'; t_mem := m1; t_cbs := t_cbs t |}, AErr EDatabase)
             | inl d' =>
                 let xs := Chain a b <$> range_from i (N.to_nat n) in
-                let m2 := set_m_addrs (list_to_set xs ∪ m_addrs m1) m1 in
+                let m2 := if rb then set_m_addrs (list_to_set xs ∪ m_addrs m1) m1 else m1 in
                 let c := {| cb_acct := a; cb_branch := b; cb_next := (i + n)%N;
                             cb_last := N.pred (i + n); cb_addrs := xs |} in
                 ({| t_disk := d'; t_mem := m2; t_cbs := t_cbs t ++ [c] |}, AAddrs xs)
@@ -443,10 +452,10 @@ Definition step (o : op) (t : txst) : txst * ans :=
       ({| t_disk := d; t_mem := m'; t_cbs := t_cbs t |}, r)
   end.
 
-Fixpoint run_ops (ops : list op) (t : txst) : txst * list ans :=
+Fixpoint run_ops (rb : bool) (ops : list op) (t : txst) : txst * list ans :=
   match ops with
   | [] => (t, [])
-  | o :: r => let '(t1, x) := step o t in let '(t2, xs) := run_ops r t1 in (t2, x :: xs)
+  | o :: r => let '(t1, x) := step rb o t in let '(t2, xs) := run_ops rb r t1 in (t2, x :: xs)
   end.
 
 Fixpoint run_queries (qs : list query) (d : disk) (m : mem) : mem * list ans :=
@@ -478,19 +487,19 @@ Definition end_tx (f : fate) (s : state) (t : txst) : state :=
   | _ => {| disk_of := disk_of s; mem_of := t_mem t |}
   end.
 
-Definition run_tx (x : txn) (s : state) : state * (list ans * list ans) :=
-  let '(t, outs) := run_ops (tx_ops x) {| t_disk := disk_of s; t_mem := mem_of s; t_cbs := [] |} in
+Definition run_tx (rb : bool) (x : txn) (s : state) : state * (list ans * list ans) :=
+  let '(t, outs) := run_ops rb (tx_ops x) {| t_disk := disk_of s; t_mem := mem_of s; t_cbs := [] |} in
   let s1 := end_tx (tx_fate x) s t in
   let '(m2, qa) := run_queries (tx_queries x) (disk_of s1) (mem_of s1) in
   ({| disk_of := disk_of s1; mem_of := m2 |}, (outs, qa)).
 
-Fixpoint run_hist (h : list txn) (s : state) : state * list (list ans * list ans) :=
+Fixpoint run_hist (rb : bool) (h : list txn) (s : state) : state * list (list ans * list ans) :=
   match h with
   | [] => (s, [])
-  | x :: r => let '(s1, o) := run_tx x s in let '(s2, os) := run_hist r s1 in (s2, o :: os)
+  | x :: r => let '(s1, o) := run_tx rb x s in let '(s2, os) := run_hist rb r s1 in (s2, o :: os)
   end.
 
-Definition final (h : list txn) (s : state) : state := (run_hist h s).1.
+Definition final (rb : bool) (h : list txn) (s : state) : state := (run_hist rb h s).1.
 
 (** The manager as a wallet holds it after start-up. *)
 Definition opened (d : disk) : state := {| disk_of := d; mem_of := reopen d |}.
@@ -513,9 +522,10 @@ Definition created (genesis_hash : N) (genesis_time birthday : Z) : disk :=
 
     An ABORTED transaction diverges memory from the database when it holds an
     operation that updates memory before commit: rename, set-synced-to,
-    set-birthday, extend, import, and - through the read-back at line 1160 -
-    address issuance; or when it creates an account and then reads it back
-    (the lazily loaded cache entry is built from the uncommitted row).
+    set-birthday, extend, import, and - when [rb], through the read-back at
+    line 1160 - address issuance; or when it creates an account and then reads
+    it back, or (when not [rb]) issues an address and then looks an address up:
+    the lazily loaded cache entry is built from the uncommitted row.
     A COMMITTED transaction diverges when it extends a branch after issuing
     from it (the OnCommit closure then overwrites the extended index with its
     stale value), and [SetSyncedTo(nil)] copies a start block whose time stamp
@@ -529,15 +539,19 @@ Definition loads_cache (o : op) : bool :=
   | _ => false
   end.
 
-Fixpoint abort_k (armed : bool) (ops : list op) : bool :=
+(** [armed]: an account was created earlier in this transaction;
+    [issued]: addresses were issued earlier in this transaction. *)
+Fixpoint abort_k (rb armed issued : bool) (ops : list op) : bool :=
   match ops with
   | [] => false
   | o :: r =>
       match o with
-      | ORename _ _ | ONext _ _ _ | OExtend _ _ _ | OSetSynced _ | OSetSyncedNil
+      | ORename _ _ | OExtend _ _ _ | OSetSynced _ | OSetSyncedNil
       | OSetBirthday _ | OImport _ _ => true
-      | ONewAccount _ => abort_k true r
-      | _ => (armed && loads_cache o) || abort_k armed r
+      | ONext _ _ _ => rb || armed || abort_k rb armed true r
+      | ONewAccount _ => abort_k rb true issued r
+      | ORead (QLookup _) => issued || armed || abort_k rb armed issued r
+      | _ => (armed && loads_cache o) || abort_k rb armed issued r
       end
   end.
 
@@ -564,10 +578,10 @@ Fixpoint commit_k_idx (pend : list (N * bool)) (ops : list op) : bool :=
 Definition has_synced_nil (ops : list op) : bool :=
   existsb (fun o => match o with OSetSyncedNil => true | _ => false end) ops.
 
-Definition tx_k (x : txn) : bool :=
+Definition tx_k (rb : bool) (x : txn) : bool :=
   match tx_fate x with
   | Commit => commit_k_idx [] (tx_ops x) || has_synced_nil (tx_ops x)
-  | _ => abort_k false (tx_ops x)
+  | _ => abort_k rb false false (tx_ops x)
   end.
 
 Definition tx_k_idx (x : txn) : bool :=
@@ -576,7 +590,7 @@ Definition tx_k_idx (x : txn) : bool :=
   | _ => abort_k_idx false (tx_ops x)
   end.
 
-Definition in_K (h : list txn) : bool := existsb tx_k h.
+Definition in_K (rb : bool) (h : list txn) : bool := existsb (tx_k rb) h.
 Definition in_K_idx (h : list txn) : bool := existsb tx_k_idx h.
 
 (** Time stamps handed to SetSyncedTo fit the 32 bits the database keeps
